@@ -34,6 +34,7 @@ type Effects struct {
 	calls  map[*ssa.Function][]*ssa.Function
 	slotFns map[string][]*ssa.Function // slot name -> functions stored into it
 	ghostW map[*ssa.Function]map[string]bool
+	greads map[*ssa.Function]map[string]bool
 }
 
 func fieldClass(obj types.Type, field int) string {
@@ -689,4 +690,47 @@ func (e *Effects) OnlyWriter(class string, fn *ssa.Function) bool {
 		}
 	}
 	return found
+}
+
+// GlobalsRead: package-level variables referenced by f or by functions it may call (transitively, static calls and closures).
+func (e *Effects) GlobalsRead(f *ssa.Function) map[string]bool {
+	if e.greads == nil {
+		e.greads = map[*ssa.Function]map[string]bool{}
+		for _, g := range e.P.All {
+			m := map[string]bool{}
+			for _, b := range g.Blocks {
+				for _, ins := range b.Instrs {
+					var ops []*ssa.Value
+					for _, op := range ins.Operands(ops) {
+						if op != nil && *op != nil {
+							if gl, ok := (*op).(*ssa.Global); ok {
+								m[gl.Name()] = true
+							}
+						}
+					}
+				}
+			}
+			e.greads[g] = m
+		}
+		changed := true
+		for changed {
+			changed = false
+			for _, g := range e.P.All {
+				for _, b := range g.Blocks {
+					for _, ins := range b.Instrs {
+						fns, _ := e.calleesOf(g, ins)
+						for _, c := range fns {
+							for n := range e.greads[c] {
+								if !e.greads[g][n] {
+									e.greads[g][n] = true
+									changed = true
+								}
+							}
+						}
+					}
+				}
+			}
+		}
+	}
+	return e.greads[f]
 }
